@@ -207,6 +207,23 @@ func (s *Session) ModuleState(moduleName string) (any, bool) {
 	return state, ok
 }
 
+// ModuleStateOrStore returns the state registered under the given module name.
+// When there is none, the state returned by newState is registered first. The
+// lookup and the registration are a single atomic step, so that participants
+// joining concurrently end up sharing one state.
+func (s *Session) ModuleStateOrStore(moduleName string, newState func() any) any {
+	s.moduleMutex.Lock()
+	defer s.moduleMutex.Unlock()
+
+	if state, ok := s.moduleStates[moduleName]; ok {
+		return state
+	}
+
+	state := newState()
+	s.moduleStates[moduleName] = state
+	return state
+}
+
 func (s *Session) HandleFrame(h func()) (cancel func()) {
 	s.frameMutex.Lock()
 	defer s.frameMutex.Unlock()
